@@ -86,7 +86,15 @@ def one(src, budget=None):
             budget["skipped"] += 1
             continue
         fn = getattr(da, v)
+        from gambatools import _verif
+        _verif.take()
         r1, x1 = guarded(lambda: fn(D1, D2), LIMIT)
+        tr = _verif.take()
+        if v == "dfa_isomorphic1" and x1 == "none" and _verif.ON:
+            # (T) the observed pick order, replayed through Iso.tla's step function
+            yield {"op": "iso_trace", "variant": v, "d1": ab.dfa(D1), "d2": ab.dfa(D2),
+                   "picks": [[ab.enc(t["q1"]), ab.enc(t["q2"])] for t in tr if t["ev"] == "iso.pick"],
+                   "res": "true" if r1 else "false", "src": src}
         r2, x2 = guarded(lambda: fn(D2, D1), LIMIT)
         if budget is not None and "Timeout" in (x1, x2):
             budget[v] -= 1
@@ -132,6 +140,8 @@ RULE = ("all ordered pairs of DFA(2,{a,b}) (4096) x two variants x both argument
 
 
 def nontrivial(e):
+    if e["op"] == "iso_trace":
+        return len(e["picks"]) >= 2
     return len(e["d1"]["Q"]) == len(e["d2"]["Q"])
 
 
